@@ -268,7 +268,43 @@ fn out_accuracy(attrs: &DifficultyAttributes, i: &In, out: &ScoreState) -> f64 {
     }
 }
 
+/// A shape that differs from `attrs` in one count only (`sel` picks which).
+fn sibling_shape(attrs: &DifficultyAttributes, sel: u64) -> DifficultyAttributes {
+    match attrs {
+        DifficultyAttributes::Osu(a) => match sel % 4 {
+            0 if a.n_sliders > 0 => osu_shape(a.n_circles, a.n_sliders, a.n_large_ticks + 1, a.n_spinners),
+            1 if a.n_sliders > 0 => osu_shape(a.n_circles + 1, a.n_sliders - 1, a.n_large_ticks, a.n_spinners),
+            2 => osu_shape(a.n_circles + 1, a.n_sliders, a.n_large_ticks, a.n_spinners),
+            _ => osu_shape(a.n_circles.saturating_sub(1), a.n_sliders + 1, a.n_large_ticks, a.n_spinners),
+        },
+        DifficultyAttributes::Taiko(a) => taiko_shape(if sel % 2 == 0 { a.max_combo + 1 } else { a.max_combo.saturating_sub(1) }),
+        DifficultyAttributes::Catch(a) => match sel % 3 {
+            0 => catch_shape(a.n_fruits, a.n_droplets, a.n_tiny_droplets + 1),
+            1 if a.n_fruits > 0 => catch_shape(a.n_fruits - 1, a.n_droplets + 1, a.n_tiny_droplets),
+            _ => catch_shape(a.n_fruits + 1, a.n_droplets, a.n_tiny_droplets),
+        },
+        DifficultyAttributes::Mania(a) => match sel % 3 {
+            0 if a.n_hold_notes < a.n_objects => mania_shape(a.n_objects, a.n_hold_notes + 1),
+            1 if a.n_hold_notes > 0 => mania_shape(a.n_objects, a.n_hold_notes - 1),
+            0 | 1 if a.n_hold_notes > 0 => mania_shape(a.n_objects, 0),
+            _ => mania_shape(a.n_objects + 1, a.n_hold_notes),
+        },
+    }
+}
+
 fn check_one(ctx: &mut Ctx, mode: GameMode, attrs: &DifficultyAttributes, i: &In, grid_kind: &str) -> bool {
+    // One configuration in three: the call that is judged is directly preceded (same thread) by the *same* request for a
+    // shape that differs in one count only. The neighbour's own answer is judged when it is the current shape; here only the
+    // history matters (a result remembered under too coarse a key is handed to the next caller).
+    let sel = hash_str(&format!("{i:?}"));
+    if sel % 3 == 0 {
+        let sib = sibling_shape(attrs, sel / 3);
+        let _ = guard(|| {
+            let mut b = c12::build(&sib, mode, i);
+            b.generate_state()
+        });
+        ctx.count("neighbour_calls_before_judged_call");
+    }
     check_one_with(ctx, mode, attrs, i, grid_kind, &|i| Some(c12::build(attrs, mode, i)))
 }
 
